@@ -70,6 +70,16 @@ class PathView:
         objs = {o.name: o for o in p.objs}
         for (nm, n, prec) in bufs:
             o = objs[nm]
+            if prec in ("i32", "i64"):
+                es = 4 if prec == "i32" else 8
+                vals = []
+                for i in range(n):
+                    c = o.cells.get(i * es)
+                    vals.append(c[1] if c is not None and c[0] == es and isinstance(c[1], int) else None)
+                self.mem[nm] = vals
+                self.written[nm] = set(o.written)
+                self.read[nm] = set(o.read)
+                continue
             es = 8 if prec == "d" else 4
             vals = []
             for i in range(n):
@@ -177,7 +187,9 @@ class Extract:
         def mk(ex_, p):
             args = []
             for (nm, n, prec) in bufs:
-                if n is None:
+                if n is None and prec.startswith("int:"):
+                    args.append(int(prec[4:]) & 0xFFFFFFFF)      # concrete i32 argument
+                elif n is None:
                     args.append(dag.var(nm, prec=prec))
                 else:
                     args.append(symex.sym_buffer(ex_, nm, n, prec))
@@ -206,7 +218,10 @@ class Extract:
         arrs = []
         argv = []
         for (nm, n, prec) in bufs:
-            ct = ctypes.c_double if prec == "d" else ctypes.c_float
+            if n is None and prec.startswith("int:"):
+                argv.append(ctypes.c_int(int(prec[4:])))
+                continue
+            ct = ctypes.c_double if prec == "d" else ctypes.c_float if prec == "f" else ctypes.c_int
             if n is None:
                 argv.append(ct(env[nm]))
                 continue
@@ -447,3 +462,64 @@ def sign_fact(pv, node, nonneg_vars=(), pos_vars=(), depth=0):
         s = sign_fact(pv, node.args[0], nonneg_vars, pos_vars, depth + 1)
         return "nonneg" if s else None
     return None
+
+
+# ------------------------------------------------------------------------------------------ z3 feasibility of path conditions
+def lp_to_z3(ctx, lp, zvars):
+    import z3
+    tot = z3.RealVal(0)
+    for m, c in lp.t.items():
+        term = z3.RealVal(str(Fraction(c, lp.den)))
+        for i in range(len(ctx.names)):
+            e = ((m >> (poly.BITS * i)) & poly.MASK) - poly.BIAS
+            if e == 0:
+                continue
+            v = zvars.setdefault(i, z3.Real(ctx.names[i]))
+            for _ in range(abs(e)):
+                term = term * v if e > 0 else term / v
+        tot = tot + term
+    return tot
+
+
+def path_feasible_z3(pv, pre=None, timeout_ms=2000):
+    """R-semantics feasibility of the path condition together with the precondition `pre(ctx, to_z3) -> [z3 constraints]`.
+    Only atoms whose difference is a polynomial in the inputs are used (others are ignored: over-approximation).
+    Returns False only when z3 proves the conjunction unsatisfiable."""
+    import z3
+    ctx = poly.Ctx()
+    zvars = {}
+    cons = []
+
+    def to_z3(node):
+        r = poly.to_rf(ctx, node)
+        if r.d is not None:
+            return lp_to_z3(ctx, r.n, zvars) / lp_to_z3(ctx, r.d, zvars)
+        return lp_to_z3(ctx, r.n, zvars)
+    for (cond, choice, *_r) in pv.atoms:
+        if cond.op != "fcmp":
+            continue
+        pred, a, b = cond.args
+        try:
+            if any(n.op == "call" for n in dag.topo([a, b])):
+                continue
+            d = to_z3(a) - to_z3(b)
+        except Exception:
+            continue
+        ps = symex.pred_set(pred) - {symex.UN}
+        if not choice:
+            ps = {symex.LT, symex.EQ, symex.GT} - ps
+        alts = []
+        if symex.LT in ps:
+            alts.append(d < 0)
+        if symex.EQ in ps:
+            alts.append(d == 0)
+        if symex.GT in ps:
+            alts.append(d > 0)
+        if len(alts) < 3:
+            cons.append(z3.Or(*alts) if alts else z3.BoolVal(False))
+    if pre is not None:
+        cons += list(pre(ctx, to_z3))
+    s = z3.Solver()
+    s.set("timeout", timeout_ms)
+    s.add(*cons)
+    return s.check() != z3.unsat
